@@ -57,6 +57,22 @@ class FactoryError(Exception):
     pass
 
 
+def factory_failure(fid: int) -> Exception:
+    """What a failing factory raises: an exception of its own, or (odd ids) a ResourceNotFound - e.g. because the
+    factory looked for something that is not there. Either way it is the factory's failure, not "no such resource"."""
+    if fid % 2:
+        from asphalt.core import ResourceNotFound
+
+        class FactoryLookupFailure(ResourceNotFound):
+            pass
+
+        FactoryLookupFailure.__name__ = "FactoryError"
+        e = FactoryLookupFailure(object, f"needed_by_factory_{fid}")
+        e.from_factory = True
+        return e
+    return FactoryError()
+
+
 class GenObj:
     def __init__(self, c: int, fid: int, n: int) -> None:
         self.key = (c, fid, n)
@@ -84,7 +100,7 @@ def exc_name(e: BaseException | None) -> str:
     for i, c in enumerate(BASE):
         if type(e) is c:
             return f"base{i}"
-    if isinstance(e, FactoryError):
+    if isinstance(e, FactoryError) or getattr(e, "from_factory", False):
         return "exn0"
     from anyio import get_cancelled_exc_class
 
@@ -171,7 +187,7 @@ class Kernel:
                 else:
                     await checkpoint()
                 if n < spec["failFirst"]:
-                    raise FactoryError()
+                    raise factory_failure(fid)
                 return GenObj(c, fid, n)
 
             fn: Any = afactory
@@ -191,7 +207,7 @@ class Kernel:
             def sfactory():  # type: ignore[no-untyped-def]
                 c, n = begin()
                 if n < spec["failFirst"]:
-                    raise FactoryError()
+                    raise factory_failure(fid)
                 return GenObj(c, fid, n)
 
             fn = sfactory
@@ -216,6 +232,12 @@ class Kernel:
                 kern.tdlog.append("body [" + ", ".join(outs) + "]")
             for r in spec["regs"]:
                 ctx.add_teardown_callback(kern.make_cb(r, cid), r["pass"])
+            if spec.get("reraise") and spec["pass"] and args:
+                # raises the very object it was handed (the exception that ended the block), if any
+                kern.tdlog.append(f"td- {spec['id']} {'ok' if args[0] is None else exc_name(args[0])}")
+                if args[0] is not None:
+                    raise args[0]
+                return
             kern.tdlog.append(f"td- {spec['id']} {spec_name(spec['raises'])}")
             if spec["raises"] is not None:
                 raise make_exc(spec["raises"])
@@ -287,6 +309,8 @@ class Kernel:
     def exc_out(self, e: BaseException) -> list[str]:
         from asphalt.core import AsyncResourceError, NoCurrentContext, ResourceConflict, ResourceNotFound
 
+        if getattr(e, "from_factory", False):
+            return ["raisedExc exn0"]       # a ResourceNotFound raised by a factory is the factory's failure
         if isinstance(e, ResourceConflict):
             return ["conflict"]
         if isinstance(e, ResourceNotFound):
@@ -560,6 +584,15 @@ class Worker:
                 if cmd["c"] not in kern.ctxs:
                     kern.results[cmd["i"]] = ["badOp"]
                     continue
+                if cmd.get("manual"):
+                    # entered by hand (`await ctx.__aenter__()`) and never left: it stays this task's current
+                    # context, and an open child of its parent, from now on
+                    try:
+                        await kern.ctxs[cmd["c"]].__aenter__()
+                        kern.results[cmd["i"]] = ["ok"]
+                    except RuntimeError as e:
+                        kern.results[cmd["i"]] = [kern.rt_name(e)]
+                    continue
                 await self.block(cmd)
                 continue
             try:
@@ -693,7 +726,8 @@ class Worker:
                 if cmd["desc"] is not None:
                     kw["description"] = cmd["desc"]
                 if cmd["tdBad"]:
-                    kw["teardown_callback"] = "not callable"
+                    # something that is not callable - truthy or falsy
+                    kw["teardown_callback"] = ["not callable", 0, "", (), 5][cmd["val"] % 5]
                 elif cmd["td"] is not None:
                     kw["teardown_callback"] = kern.make_cb(cmd["td"], cmd["c"])
                 return kern.guard(lambda: target.add_resource(value, cmd["name"], types, **kw))
@@ -754,7 +788,7 @@ class Worker:
                     except Exception as e:  # noqa: BLE001
                         return kern.exc_out(e)
                     return ["ok"]
-                cb: Any = kern.make_cb(cmd["cb"], cmd["c"]) if cmd["callable"] else "not callable"
+                cb: Any = kern.make_cb(cmd["cb"], cmd["c"]) if cmd["callable"] else ["not callable", 0, "", ()][cmd["cb"]["id"] % 4]
                 return kern.guard(lambda: target.add_teardown_callback(cb, cmd["cb"]["pass"]))
             if op == "parent":
                 return [f"parent {kern.name_of(ctx.parent)}"]
